@@ -4,6 +4,8 @@ CONSTANTS
   BugUseFlagAll = FALSE
   BugOptionalOrigState = FALSE
   BugNames = "none"
+  BugMissingIsOther = FALSE
+  BugUsage = "none"
   Reasons <- OptionsReasons
 INVARIANT RLVerdict
 CONSTRAINT RLConsumed
